@@ -66,6 +66,10 @@ impl Drop for Val {
     }
 }
 
+pub fn in_lib() -> bool {
+    IN_LIB.with(|f| f.get())
+}
+
 pub fn set_in_lib(v: bool) {
     IN_LIB.with(|f| f.set(v));
 }
